@@ -265,8 +265,9 @@ func (m *BaseUndoLogManager) Undo(ctx context.Context, dbType types.DBType, xid 
 	}
 	defer func() {
 		if err != nil {
-			if err = tx.Rollback(); err != nil {
-				log.Errorf("rollback fail, xid: %s, branchID:%s err:%v", xid, branchID, err)
+			// keep the error that made the undo fail: it decides the branch status
+			if rollbackErr := tx.Rollback(); rollbackErr != nil {
+				log.Errorf("rollback fail, xid: %s, branchID:%s err:%v", xid, branchID, rollbackErr)
 				return
 			}
 		}
@@ -278,8 +279,8 @@ func (m *BaseUndoLogManager) Undo(ctx context.Context, dbType types.DBType, xid 
 		return err
 	}
 	defer func() {
-		if err = stmt.Close(); err != nil {
-			log.Errorf("stmt close fail, xid: %s, branchID:%s err:%v", xid, branchID, err)
+		if closeErr := stmt.Close(); closeErr != nil {
+			log.Errorf("stmt close fail, xid: %s, branchID:%s err:%v", xid, branchID, closeErr)
 			return
 		}
 	}()
@@ -290,8 +291,8 @@ func (m *BaseUndoLogManager) Undo(ctx context.Context, dbType types.DBType, xid 
 		return err
 	}
 	defer func() {
-		if err = rows.Close(); err != nil {
-			log.Errorf("rows close fail, xid: %s, branchID:%s err:%v", xid, branchID, err)
+		if closeErr := rows.Close(); closeErr != nil {
+			log.Errorf("rows close fail, xid: %s, branchID:%s err:%v", xid, branchID, closeErr)
 			return
 		}
 	}()
@@ -380,7 +381,7 @@ func (m *BaseUndoLogManager) Undo(ctx context.Context, dbType types.DBType, xid 
 
 	if err = tx.Commit(); err != nil {
 		log.Errorf("[Undo] execute on fail, err: %v", err)
-		return nil
+		return err
 	}
 	return nil
 }
